@@ -198,6 +198,14 @@ def run(prop, tier):
                         wv = chk_C05(cs, got)
                         if wv:
                             viol = {"what": wv, **meta[-1], "audio_bytes": list(cs["data"])[:2000]}
+                    if how == "function":
+                        got_fn = got
+                    elif viol is None and got != got_fn:
+                        # "split() (function or AudioRegion method)": one statement for both, so they cannot differ on the same audio
+                        viol = {"what": "AudioRegion.split() and split() disagree on the same audio and parameters: method %s, function %s" % (
+                            "raised error code %r" % (got[1],) if got[0] else "%d region(s) %r" % (len(got[1]), [(C.me_float(x[1]), C.me_float(x[2])) for x in got[1]][:6]),
+                            "raised error code %r" % (got_fn[1],) if got_fn[0] else "%d region(s) %r" % (len(got_fn[1]), [(C.me_float(x[1]), C.me_float(x[2])) for x in got_fn[1]][:6])),
+                                **meta[-1], "audio_bytes": list(cs["data"])[:2000]}
         else:
             sites = alias_sites()
             missing = [a for a in ALIASES if a not in sites]
@@ -265,6 +273,14 @@ def run(prop, tier):
                     ref = impl_split(au, pre, cs)
                     if viol is None and got != ref:
                         viol = {"what": "%s=%r gives different regions than splitting the first round(t*rate)=%d samples" % (name, t, mxs), **meta[-1], "audio_bytes": list(d)[:2000]}
+                # the same limit through file containers, eager and lazy (the reader's last request is then shorter than a window)
+                for name, inp, extra in (("raw lazy + max_read", raw_p, dict(large_file=True)), ("raw eager + max_read", raw_p, {}),
+                                         ("wav lazy + max_read", wav_p, dict(large_file=True)), ("wav eager + max_read", wav_p, {})):
+                    got = impl_split(au, inp, cs, dict(max_read=t), **extra)
+                    cases.append(model_case(cs, mxs)); impl.append(got); meta.append({"container/spelling": name, "max_read": t, **describe(cs)})
+                    if viol is None and got != ref:
+                        viol = {"what": "split() through '%s' with max_read=%r differs from splitting the first round(t*rate)=%d samples of the same audio" % (name, t, mxs),
+                                **meta[-1], "audio_bytes": list(d)[:2000]}
                 # all containers agree with one another
                 ref = runs["bytes"]
                 for name, got in runs.items():
